@@ -7,7 +7,7 @@ CFG = {'module': 'Dnp3.Props.C01',
          'Variations.lean',
          'Qualifiers.lean',
          'AppCodes.lean'],
- 'engines': ['rawbytes', 'parse', 'outstation', 'outstationdb', 'master'],
+ 'engines': ['rawbytes', 'parse', 'outstation', 'outstationdb', 'master', 'pairtcp'],
  'monitors': ['no_panic', 'no_stall', 'keeps_serving'],
  'rule': 'engine rawbytes (SEARCH ONLY, no Lean-model counterpart: nothing is diffed, the three monitors '
          'decide): the REAL OutstationTask (link layer, transport, parser, session, database) over an '
@@ -40,7 +40,15 @@ CFG = {'module': 'Dnp3.Props.C01',
          '= distinct canonical op lists; engine outstationdb: the same over a populated database '
          '(event-buffer overflow during confirm waits); engine master: the real MasterTask over the pipe fed '
          'response / unsolicited fragments (well-formed, stale, foreign, unparsable) in every task state, '
-         'monitors no_panic / no_spin (see C15)',
+         'monitors no_panic / no_spin (see C15); engine pairtcp (SEARCH ONLY, see C02: both endpoints '
+         'through the public TCP API - dnp3::tcp::Server and spawn_master_tcp_client - on a multi-threaded '
+         'runtime in real time behind a byte-level proxy that cuts at any octet, refuses, half-opens, '
+         're-chunks and flips bits): monitors no_panic (panic hook per case, JoinHandles of the outstation '
+         'and server tasks, the master channel still answers), no_hang (every user request completes or '
+         'fails, the user thread is never blocked, wall-clock watchdog) and reconnects_after_cut (the '
+         'session that ends - cleanly in Close mode after a flipped bit, or by a cut - is followed by the '
+         'next one: back-off law exact, reconnect within its delay + 6 s, start-up sequence answered on the '
+         'last connection)',
  'trusted_base': ['tools/gen_panic_sites.py: token-level scanner (comments, strings, attributes, '
                   '#[cfg(test)] items stripped) listing unwrap/expect/panic-family macros/indexing/panicking '
                   'slice calls/arithmetic operators of the 21 anchor files + 25 peer-reachable helper '
@@ -90,4 +98,5 @@ CFG = {'module': 'Dnp3.Props.C01',
  'engine_monitors': {'master': ['no_panic', 'no_spin'],
                      'parse': ['no_panic'],
                      'outstation': ['no_panic', 'no_stall'],
-                     'outstationdb': ['no_panic', 'no_stall', 'series_makes_progress']}}
+                     'outstationdb': ['no_panic', 'no_stall', 'series_makes_progress'],
+                     'pairtcp': ['no_panic', 'no_hang', 'reconnects_after_cut', 'harness_ok']}}
